@@ -336,6 +336,13 @@ theorem rom_accepts_general (cr : CryptoOps) (hl : CryptoLaws cr) (sg : Signer) 
       r.srk.map (·.2.2) = some s.srkSrc ∧ r.csfCert.isSome = !fast ∧ r.imgCert.isSome = !fast :=
   rom_accepts_general_lemma cr hl sg fuel c b s fast gaps h hs ha hb hfit hd hx hm hn hver hentry
 
+/-- the executable recogniser the model driver runs on EVERY signed configuration the harness generates (stream
+    `images`, answer `shape=std|fast`): when it answers, the hypothesis `GenCfg` of `rom_accepts_general` holds for that
+    configuration — the theorem speaks about the command lists `CsfHabSegment.load_from_config` really produces -/
+theorem gen_shape_sound (c : Cfg) (s : StdCsf) (fast : Bool) (gaps : List (List Cmd))
+    (h : genShape c = some (s, fast, gaps)) : GenCfg c s fast gaps :=
+  genShape_sound_lemma c s fast gaps h
+
 /-- the standard shape of `rom_accepts` is the instance "standard chain, extras only between Authenticate CSF and
     Install Key" of the general one -/
 theorem std_cfg_general (c : Cfg) (s : StdCsf) (hs : StdCfg c s) : GenCfg c s false [[], [], [], s.extras] :=
@@ -553,6 +560,11 @@ example : (match Spec.HabRom.habCheck Crypto.execOps (exportImage exFast exFB) n
 /-- the hypotheses of `csf_oversize_bootdata_short` are satisfiable: the standard container with a 9000-byte SRK table -/
 example : HabConsts.csfSize < (csfBase exAuth.version [⟨.insKey 0 3 0 0 0 0, some (List.replicate 9000 0)⟩] ++
     encData [⟨.insKey 0 3 0 0 0 0, some (List.replicate 9000 0)⟩]).length := by decide +kernel
+
+/-- the recogniser answers on the two concrete containers (hypothesis of `gen_shape_sound` satisfiable) -/
+example : (genShape exFast).map (fun r => (r.2.1, r.2.2)) = some (true, exGaps) ∧
+    (genShape exAuth).map (fun r => (r.2.1, r.2.2)) = some (false, [[], [], [], [.unlock 0x1E 2 0], [], []]) ∧
+    genShape (exPlain 1) = none := by decide +kernel
 
 /-- `GenCfg` with `fast = false` is inhabited too: the standard container above -/
 example : GenCfg exAuth exS false [[], [], [], exS.extras] := std_cfg_general _ _ exAuth_std
